@@ -42,7 +42,8 @@ ASSUMPTIONS = [
 PROBES = ("eviction", "typed_distinguishes", "discard_hit", "discard_miss",
           "failing_call", "method_binding", "clear_midway", "keyword_order")
 
-VALUES = (1, 1.0, True, "1", (1,), None, 2, 2.0, "2", 3, -1, -2)  # hash(-1) == hash(-2) in CPython: unequal all the same
+NAN = float("nan")  # one object, used again and again: equal to nothing, found again by identity (as in functools)
+VALUES = (1, 1.0, True, "1", (1,), None, 2, 2.0, "2", 3, -1, -2, NAN)  # hash(-1) == hash(-2) in CPython: unequal all the same
 
 
 class Model:
@@ -93,7 +94,7 @@ def gen(ch):
     npat = ch.between(1, 5)
     pats = []
     for _ in range(npat):
-        shape = ch.draw(8)
+        shape = ch.draw(10)
         a, b = pool[ch.draw(nvals)], pool[ch.draw(nvals)]
         if shape == 0:
             pats.append(((a,), ()))
@@ -110,9 +111,16 @@ def gen(ch):
         elif shape == 6:
             # a positional argument that looks like a keyword item
             pats.append(((("a", a),), ()))
-        else:
+        elif shape == 7:
             pats.append(((("a", a), ("b", b)), ()))
+        elif shape == 8:
+            pats.append(((a, b, a), ()))  # one positional too many for a function with a real signature
+        else:
+            pats.append(((a,), (("c", b),)))  # a keyword a function with a real signature does not know
     sc.pats = pats
+    # the wrapped function takes anything (*args, **kwargs) or has a real signature (x=None, y=None, *, a=None, b=None):
+    # then ill-fitting patterns fail when the function is *called*, before there is anything to await
+    sc.strict = ch.chance(1, 3)
     sc.result_mode = ch.weighted([4, 1, 2])  # results: always a fresh tuple, always None, None / falsy every other time
     sc.falsy_inst = ch.chance(1, 3)
     ops = []
@@ -120,7 +128,8 @@ def gen(ch):
     for _ in range(ch.between(1, 40)):
         kind = ch.weighted([12, 1, 2, 1, 2 if discards else 0])  # call clear info params discard
         pat = ch.draw(npat)
-        inst = ch.weighted([4, 4, 1])  # two kept instances; 2 = a temporary instance nobody else refers to (methods only)
+        # two kept instances; 2 = a temporary instance nobody else refers to; 3 = a shallow copy of the first (methods only)
+        inst = ch.weighted([8, 8, 2, 3])
         fail = ch.chance(1, 8)
         ops.append((kind, pat, inst, fail))
     sc.ops = ops
@@ -177,6 +186,9 @@ def build(sc, sim, ref):
     if ref:
         def func(*args, **kwargs):
             return side.body(args, kwargs)
+
+        def func_strict(x=None, y=None, *, a=None, b=None):
+            return side.body((x, y), {"a": a, "b": b})
     else:
         susp = sc.susp
 
@@ -185,6 +197,13 @@ def build(sc, sim, ref):
                 await sim.suspend(PAUSE, None, "wrapped")
             return side.body(args, kwargs)
 
+        async def func_strict(x=None, y=None, *, a=None, b=None):
+            for _ in range(susp[side.serial % 3]):
+                await sim.suspend(PAUSE, None, "wrapped")
+            return side.body((x, y), {"a": a, "b": b})
+
+    if sc.strict:
+        func = func_strict
     if sc.binding == 0:
         wrapped = decorate(sc, L, func, ref)
         side.targets = [wrapped, wrapped]
@@ -194,6 +213,9 @@ def build(sc, sim, ref):
         if ref:
             def meth(self_, *args, **kwargs):
                 return side.body(args, kwargs, getattr(self_, "label", None) if sc.binding == 1 else None)
+
+            def meth_strict(self_, x=None, y=None, *, a=None, b=None):
+                return side.body((x, y), {"a": a, "b": b}, getattr(self_, "label", None) if sc.binding == 1 else None)
         else:
             susp = sc.susp
 
@@ -201,6 +223,13 @@ def build(sc, sim, ref):
                 for _ in range(susp[side.serial % 3]):
                     await sim.suspend(PAUSE, None, "wrapped")
                 return side.body(args, kwargs, getattr(self_, "label", "<no instance>") if sc.binding == 1 else None)
+
+            async def meth_strict(self_, x=None, y=None, *, a=None, b=None):
+                for _ in range(susp[side.serial % 3]):
+                    await sim.suspend(PAUSE, None, "wrapped")
+                return side.body((x, y), {"a": a, "b": b}, getattr(self_, "label", "<no instance>") if sc.binding == 1 else None)
+        if sc.strict:
+            meth = meth_strict
         if sc.binding == 1:
             ns = {"m": decorate(sc, L, meth, ref)}
             if sc.falsy_inst:
@@ -218,6 +247,19 @@ def build(sc, sim, ref):
                 return t.m
 
             side.temp = temp
+            side.copied = []
+
+            def the_copy():
+                # a shallow copy of the first instance, made when first needed (after that one has been in use)
+                if not side.copied:
+                    import copy
+
+                    c = copy.copy(x)
+                    c.label = "copy"
+                    side.copied.append(c)
+                return side.copied[0].m
+
+            side.the_copy = the_copy
             side.targets = [x.m, y.m]
             side.prefix = [(x,), (y,)]
             side.cache = cls.m
@@ -245,13 +287,18 @@ async def history(sc, side, trace):
     for kind, pat, inst, fail in sc.ops:
         args, kw = sc.pats[pat]
         kwargs = dict(kw)
-        target = side.temp() if (inst == 2 and sc.binding == 1) else side.targets[inst % 2]
+        if sc.binding == 1 and inst >= 2:
+            target = side.temp() if inst == 2 else side.the_copy()
+        else:
+            target = side.targets[inst % 2]
         if kind == 0:
             side.fail_next = fail
             try:
                 res = ("ok", await target(*args, **kwargs))
             except InjectedFault as err:
                 res = ("fault", err.tag)
+            except TypeError:
+                res = ("does not fit the signature",)
             side.fail_next = False
         elif kind == 1:
             target.cache_clear()
@@ -281,6 +328,10 @@ def ref_history(sc, side, model, mside):
             mside.n_temp = getattr(mside, "n_temp", 0) + 1
             margs = (("temp", mside.n_temp),) + args
             label = "temp%d" % mside.n_temp
+        elif inst == 3 and sc.binding == 1:
+            target = side.the_copy()
+            margs = (("copy",),) + args
+            label = "copy"
         else:
             target = side.targets[inst % 2]
             margs = side_prefix_model(mside, inst % 2) + args
@@ -293,12 +344,25 @@ def ref_history(sc, side, model, mside):
                     res = ("ok", target(*args, **kwargs))
                 except InjectedFault as err:
                     res = ("fault", err.tag)
+                except TypeError:
+                    res = ("does not fit the signature",)
                 side.fail_next = False
             mside.fail_next = fail
+
+            def invoke():
+                if not sc.strict:
+                    return mside.body(args, kwargs, label)
+                if len(args) > 2 or set(kwargs) - {"a", "b"}:
+                    raise TypeError("does not fit")
+                xy = (tuple(args) + (None, None))[:2]
+                return mside.body(xy, {"a": kwargs.get("a"), "b": kwargs.get("b")}, label)
+
             try:
-                mres = ("ok", model.call(margs, kwargs, lambda: mside.body(args, kwargs, label)))
+                mres = ("ok", model.call(margs, kwargs, invoke))
             except InjectedFault as err:
                 mres = ("fault", err.tag)
+            except TypeError:
+                mres = ("does not fit the signature",)
             mside.fail_next = False
         elif kind == 1:
             if ref_valid:
@@ -351,7 +415,7 @@ def execute(st, ctx):
 
     def describe(i=None):
         return {"maxsize": sc.maxsize, "typed": sc.typed, "form": sc.form, "binding": sc.binding,
-                "result_mode": sc.result_mode, "falsy_instances": sc.falsy_inst,
+                "result_mode": sc.result_mode, "falsy_instances": sc.falsy_inst, "wrapped_function_has_a_real_signature": sc.strict,
                 "effective": [msize, aside.typed],
                 "patterns": [repr(p) for p in sc.pats],
                 "ops": [(("call", "clear", "info", "params", "discard")[k], p, inst, f) for k, p, inst, f in sc.ops][: (i + 1) if i is not None else None],
@@ -404,7 +468,7 @@ def execute(st, ctx):
     if any(len(kw) == 2 for _, kw in sc.pats):
         out.probes["keyword_order"] = 1
     out.nontrivial = hits >= 1 and (evicted or bool(mside.discards) or aside.typed or "failing_call" in out.probes)
-    out.shape = (sc.maxsize_sel, sc.typed, sc.form, sc.binding, sc.result_mode, sc.falsy_inst, tuple(repr(p) for p in sc.pats), tuple(sc.ops))
+    out.shape = (sc.maxsize_sel, sc.typed, sc.form, sc.binding, sc.result_mode, sc.falsy_inst, sc.strict, tuple(repr(p) for p in sc.pats), tuple(sc.ops))
     if ctx.want_sample:
         out.sample = describe()
     if ctx.want_log:
